@@ -127,7 +127,8 @@ def gen_read(rng, V, tbl="public", name=None, route=None, means=None):
 def gen_calc(rng, V, tbl="public", which=None):
     which = which or rng.choice(
         ["nscat", "nsld", "xsld", "volume", "activation", "d2o_match", "fasta_const",
-         "emission_table", "xsld_table", "nsld_table", "nsf_tables", "list", "mff", "f0", "mass"])
+         "emission_table", "xsld_table", "nsld_table", "nsf_tables", "list", "mff", "f0", "mass",
+         "refraction", "composite", "d2o_sld", "fasta_seq", "formula_methods", "show_table"])
     if which in ("nscat", "nsld"):
         return ["calc", tbl, which, V.formula(rng), rng.choice([1.0, 2.5, 7.9]),
                 rng.choice([0.5, 1.798, 4.75, 6.0])]
@@ -143,6 +144,20 @@ def gen_calc(rng, V, tbl="public", which=None):
         return ["calc", tbl, which, rng.choice(["C3H4H[1]NO@1.29n", "C6H10O5@1.5n", "C2H5OH[1]@0.789n"])]
     if which == "nsf_tables":
         return ["calc", tbl, which, rng.choice(NSF_TABLES)]
+    if which == "refraction":
+        return ["calc", tbl, which, V.formula(rng, xray_ok=True), rng.choice([1.0, 5.24]), rng.choice([8.04, 17.44])]
+    if which == "composite":
+        return ["calc", tbl, which, V.formula(rng), V.formula(rng), rng.choice([4.75, [0.5, 1.0, 4.0]])]
+    if which == "d2o_sld":
+        return ["calc", tbl, which, rng.choice(["C3H4H[1]NO@1.29n", "C6H10O5@1.5n", "C2H5OH[1]@0.789n"])]
+    if which == "fasta_seq":
+        kind = rng.choice(["aa", "dna", "rna"])
+        alphabet = {"aa": "ACDEFGHIKLMNPQRSTVWY", "dna": "ACGT", "rna": "ACGU"}[kind]
+        return ["calc", tbl, which, kind, "".join(rng.choice(alphabet) for _ in range(rng.choice([1, 3, 8])))]
+    if which == "formula_methods":
+        return ["calc", tbl, which, V.formula(rng, xray_ok=True), rng.choice([1.0, 3.7])]
+    if which == "show_table":
+        return ["calc", tbl, which, V.formula(rng, natural_only=True), rng.choice([1.0, 2.0])]
     if which == "list":
         props = rng.choice([["symbol", "K_alpha"], ["symbol", "covalent_radius"], ["symbol", "mass"],
                             ["symbol", "K_beta1", "covalent_radius_uncertainty"],
@@ -195,7 +210,8 @@ def c09_strata(V):
     for m in IMPORTS:
         out.append(["import", m])
     for which in ["nscat", "nsld", "xsld", "volume", "activation", "d2o_match", "fasta_const",
-                  "emission_table", "xsld_table", "nsld_table", "list", "mff", "f0"]:
+                  "emission_table", "xsld_table", "nsld_table", "list", "mff", "f0", "refraction", "composite",
+                  "d2o_sld", "fasta_seq", "formula_methods", "show_table"]:
         out.append(("calc", which))
     for t in NSF_TABLES:
         out.append(["calc", "public", "nsf_tables", t])
